@@ -190,7 +190,7 @@ struct Rec : mp::NLHandler<Rec, std::string> {
   void OnAlgebraicCon(int i, const std::string& e) { it["con " + std::to_string(i)] = e; }
   void OnLogicalCon(int i, const std::string& e) { it["lcon " + std::to_string(i)] = e; }
   LinH BeginCommonExpr(int i, int n) { it["dvlin " + std::to_string(i)] = std::to_string(n) + ":"; return LinH{this, "dvlin " + std::to_string(i)}; }
-  void EndCommonExpr(int i, const std::string& e, int) { it["dv " + std::to_string(i)] = e; }
+  void EndCommonExpr(int i, const std::string& e, int pos) { it["dv " + std::to_string(i)] = e; it["dvpos " + std::to_string(i)] = std::to_string(pos); }
   void OnComplementarity(int c, int v, mp::ComplInfo info) { it["cb " + std::to_string(c)] = "compl " + std::to_string(v) + " " + dstr(info.con_lb()) + " " + dstr(info.con_ub()); }
   LinH OnLinearObjExpr(int i, int n) { it["objlin " + std::to_string(i)] = std::to_string(n) + ":"; return LinH{this, "objlin " + std::to_string(i)}; }
   LinH OnLinearConExpr(int i, int n) { it["conlin " + std::to_string(i)] = std::to_string(n) + ":"; return LinH{this, "conlin " + std::to_string(i)}; }
@@ -257,7 +257,9 @@ static Items expected(const Model& m) {
   }
   for (size_t i = 0; i < m.lcons.size(); ++i) it["lcon " + std::to_string(i)] = expect(m.lcons[i]);
   for (size_t i = 0; i < m.objs.size(); ++i) { it["obj " + std::to_string(i)] = std::to_string(m.objs[i].sense) + " " + top(m.objs[i].expr); if (m.objs[i].lin.size()) it["objlin " + std::to_string(i)] = linstr(m.objs[i].lin); }
-  for (size_t j = 0; j < m.dvs.size(); ++j) { it["dv " + std::to_string(j)] = expect(m.dvs[j].expr); it["dvlin " + std::to_string(j)] = linstr(m.dvs[j].lin); }
+  for (size_t j = 0; j < m.dvs.size(); ++j) { it["dv " + std::to_string(j)] = expect(m.dvs[j].expr); it["dvlin " + std::to_string(j)] = linstr(m.dvs[j].lin);
+    // where the defined variable belongs: 0 = shared, k = constraint k-1 (logical ones after the algebraic ones), then the objectives
+    int g = m.dvs[j].group; it["dvpos " + std::to_string(j)] = std::to_string(g >= 0 ? g : (int)m.cons.size() + (int)m.lcons.size() - g); }
   for (size_t i = 0; i < m.funcs.size(); ++i) it["func " + std::to_string(i)] = hexs(m.funcs[i].name) + " " + std::to_string(m.funcs[i].nargs) + " " + std::to_string(m.funcs[i].type);
   for (auto& t : m.ig) it["ig " + std::to_string(t.first)] = dstr(t.second);
   for (auto& t : m.idg) it["idg " + std::to_string(t.first)] = dstr(t.second);
